@@ -236,6 +236,17 @@ class Interp:
             return a > b
         raise InvalidCase('op %r' % op)
 
+    def _date(self, kind, t):
+        """a date condition; with a 'date_cache' hook the condition *objects* are shared between runs (a program
+        may well keep `deadline = time >= 10` around and use it in its next simulation)"""
+        cache = self.hooks.get('date_cache') if self.hooks else None
+        if cache is None or (kind, t) not in cache:
+            cond = (time == t) if kind == 'eq' else (time >= t)
+            if cache is None:
+                return cond
+            cache[(kind, t)] = cond
+        return cache[(kind, t)]
+
     def _task(self, ref):
         try:
             return self.tasks[ref]
@@ -328,10 +339,10 @@ class Interp:
             await (time + num(st['d']))
             ev(name, idx, 'ok')
         elif op == 'at_eq':
-            await (time == num(st['t']))
+            await self._date('eq', num(st['t']))
             ev(name, idx, 'ok')
         elif op == 'at_ge':
-            await (time >= num(st['t']))
+            await self._date('ge', num(st['t']))
             ev(name, idx, 'ok')
         elif op == 'at_lt':
             await (time < num(st['t']))
